@@ -74,6 +74,12 @@ CLAIMS = {
    design_ref="DESIGN.md §4 C19",
    note="Trusted: Coq kernel; harness/c19.py. mapper.assume (path conditions) and the complexity measure are exercised through the implementation only.",
    technique="Coq proof of join covering both inputs + model/implementation join correspondence + membership oracle"),
+ "C13": dict(
+   category="proof",
+   text="Coq theorems over a heap model of shared expression nodes (store in allocation order, values computed left to right for any valuation and operator semantics): a step that only allocates new nodes leaves the value of every existing node unchanged; an in-place re-shape of one node into a node of the same value leaves every node's value unchanged; a re-shape into a different value is observable at that node. Tie: per run every node reachable from the operands of random operation sequences (operators on either side + simplify with each option, in-place simplify, map write/read/composition, eval in concrete/partial/symbolic environments, slices, comp assignment, tst branches, merge, extensions, comparisons) is walked before and after by an independent walker: widths must not change and re-shaped nodes must evaluate identically under fixed valuations, in the Python reference walker and in the Gallina reference semantics (Amoco.Exp.Sem.denote by vm_compute); pickle round trips of expressions, mappers and memory maps are compared on str, ==, hash, walker fingerprint and evaluation. Two genuine defects (in-place sign-flag writes during evaluation) repaired.",
+   design_ref="DESIGN.md §4 C13",
+   note="Partial: the heap model is generic (operator semantics abstract); which Python operations allocate and which re-shape is observed, not proved. Nodes with ambiguous reference value (top, memory, mixed signedness) are compared by shape and width only.",
+   technique="Coq proofs of heap frame / equivalent-reshape lemmas + object-graph before/after monitor checked against the Gallina reference semantics"),
  "C14": dict(
    category="proof",
    text="Coq theorems over a byte-level model of the parsers: any record of fixed-width fields round-trips in either byte order; a table of any number of records at any offset and stride is read back; for every file holding an encoded ELF header and program/section/symbol tables (both classes, both byte orders, any counts and positions) the parser reports exactly the encoded records in canonical field order; string-table names; address->file-offset queries of Elf/PE/MachO follow the file's mapping; Intel-HEX and S-record lines decode to what they encode and are rejected when the checksum byte is wrong; HEX address composition follows the most recent extended-address record. Tie: regenerated obligations (layouts of the live ELF classes = the model's gABI tables), the model's parser run by vm_compute on the same synthesised ELF files as Elf(), PE/Mach-O queries and HEX/SREC lines model-vs-implementation, and independent struct-based readers (validated against readelf/objdump) vs amoco on synthesised ELF/PE/Mach-O images, the shipped samples and field-level variations. Eleven genuine defects found by this check were repaired.",
